@@ -311,6 +311,12 @@ func (x *Exec) loopTargets(fr *Frame, li *loopInfo) (map[string]*loopMod, bool) 
 	for b := range li.blocks {
 		for _, in := range b.Instrs {
 			switch i := in.(type) {
+			case *ssa.Next:
+				if rg, ok := i.Iter.(*ssa.Range); ok {
+					if _, isMap := rg.X.Type().Underlying().(*types.Map); isMap {
+						get(rangeCountKey(fr.fn, rg), types.Typ[types.Int]).whole = true
+					}
+				}
 			case *ssa.Store:
 				k, t, roots, field, fresh, ok := storeRoot(i.Addr, li)
 				if k == "" {
@@ -523,6 +529,15 @@ func (x *Exec) collectCallMods(cc *ssa.CallCommon, in ssa.Instruction, seen map[
 		if cc.Method.Name() == "Error" || (cc.Method.Pkg() != nil && cc.Method.Pkg().Path() == "context") {
 			return false
 		}
+		// a port whose assigns clause names package-level variables only (ghost counters)
+		if c := x.portContract(cc.Method); c != nil && len(c.Assigns) > 0 {
+			if ms, ok := x.globalAssignKeys(c); ok {
+				for _, m := range ms {
+					acc[m.key] = m
+				}
+				return false
+			}
+		}
 		return true
 	}
 	var cf *ssa.Function
@@ -709,4 +724,43 @@ func inPlaceSliceArg(cc *ssa.CallCommon) ssa.Value {
 		}
 	}
 	return nil
+}
+
+// globalAssignKeys: the heap keys of an assigns clause that names package-level variables
+// only (`verifWritten`, `codec.verifWritten`); ok is false for any other clause.
+func (x *Exec) globalAssignKeys(c *Contract) ([]modTarget, bool) {
+	env := &Env{x: x, pkg: x.prog.typesPkg(c.Pkg), names: map[string]V{}, contract: c}
+	var out []modTarget
+	for _, a := range c.Assigns {
+		e, err := parseCExpr(a)
+		if err != nil {
+			return nil, false
+		}
+		var obj types.Object
+		switch n := e.(type) {
+		case *CIdent:
+			if env.pkg == nil {
+				return nil, false
+			}
+			obj = env.pkg.Scope().Lookup(n.Name)
+		case *CSel:
+			id, ok := n.X.(*CIdent)
+			if !ok {
+				return nil, false
+			}
+			pkg := env.importedPkg(id.Name)
+			if pkg == nil {
+				return nil, false
+			}
+			obj = pkg.Scope().Lookup(n.Name)
+		default:
+			return nil, false
+		}
+		v, ok := obj.(*types.Var)
+		if !ok || v.Pkg() == nil || v.Parent() != v.Pkg().Scope() {
+			return nil, false
+		}
+		out = append(out, modTarget{key: heapKeyGlobal(v.Pkg().Path() + "." + v.Name()), t: v.Type()})
+	}
+	return out, true
 }
